@@ -181,6 +181,12 @@ def check(case):
                  remove=bool(o["remove"]), dtype=case["dtype"])
     tr = _mod.CategoriesToIntegers(columns=columns, remove=o["remove"], **np_scalars(dict(skip_errors=o["skip_errors"], single=o["single"]), case.get("np_params", False)))
     train = _frame(case["train"], cols, case["train_index"], cat_cols, case["dtype"])
+    if case.get("fitted_before"):
+        # the same instance was fitted before on a frame holding MORE categories (last month's data): what it learnt there is gone
+        extra = case["fitted_before"]
+        sup = {c: list(v) + ([extra[i % len(extra)] for i in range(2)] if c in cat_cols else [v[0], v[-1]]) for c, v in case["train"].items()}
+        n_sup = len(case["train_index"]) + 2
+        tr.fit(_frame(sup, cols, list(range(n_sup)), cat_cols, case["dtype"]))
     r = tr.fit(train)
     require(r is tr, "fit:not-self", "", facts)
     cats = {c: sorted(set(v for v in case["train"][c] if not _is_missing(v))) for c in fit_cols}
@@ -222,7 +228,7 @@ def check(case):
     labels |= {"single" if o["single"] else "indicators", "skip_errors" if o["skip_errors"] else "strict",
                "columns=" + facts["columns"], "dtype=" + case["dtype"],
                "has-missing" if has_missing else "no-missing", "has-unseen" if has_unseen else "no-unseen",
-               "remove" if o["remove"] else "no-remove", "ncat=%d" % len(fit_cols), "query-rows>1024" if len(case["test_index"]) > 1024 else "query-rows<=1024"}
+               "remove" if o["remove"] else "no-remove", "ncat=%d" % len(fit_cols), "query-rows>1024" if len(case["test_index"]) > 1024 else "query-rows<=1024", "refit-after-a-richer-frame" if case.get("fitted_before") else "first-fit"}
     return Outcome(labels, has_missing or has_unseen or len(fit_cols) >= 2)
 
 
@@ -300,6 +306,7 @@ def _cases(draw, tier="quick"):
 
 
 CLAUSES = [
-    Clause("encode", check, strategy=lambda tier: st.builds(lambda c, t, f: dict(c, tile=(1024 // len(c["test_index"]) + t) if f == 0 else 0), with_np(_cases(tier)), st.integers(2, 200), st.integers(0, 15)), quick=2400, thorough=40000, quick_shards=12,
+    Clause("encode", check, strategy=lambda tier: st.builds(lambda c, t, f, fb: dict(c, tile=(1024 // len(c["test_index"]) + t) if f == 0 else 0, fitted_before=fb), with_np(_cases(tier)), st.integers(2, 200), st.integers(0, 15),
+                                                        st.one_of(st.none(), st.none(), st.lists(st.sampled_from(ALPHA + UNSEEN), min_size=1, max_size=2))), quick=2400, thorough=40000, quick_shards=12,
            doc="fit on a frame, transform it and a second frame with missing/unseen values; reference encoder + metamorphic relation"),
 ]
